@@ -264,6 +264,73 @@ def fam_narrow(tier, rng):
 FAMILIES = [fam_routes, fam_arith, fam_for, fam_round, fam_narrow]
 
 
+def fam_logic(tier, rng):
+    """AND / OR / NOT / MOD with operands of every numeric type, inside and beyond the INTEGER range, the result stored into
+    every type and fed into further arithmetic: whatever the operators do with an operand that does not fit (the oracle is
+    silent there), a variable never ends up with a value outside its type - the monitor judges every store"""
+    out = []
+    vals = [0, 1, -1, 255, 32767, -32768, 32768, 40000, 65535, 70000, 305441741, -40000, MAXL]
+    for op in ("and", "or", "mod"):
+        for ta in NUMT:
+            for tb in ("I", "L", "S"):
+                ps = [(x, y) for x in vals for y in vals if fits(ta, x) and fits(tb, y) and (abs(x) > 32767 or abs(y) > 32767 or rng.random() < 0.15)
+                      and abs(x) <= (16777216 if ta == "S" else MAXL) and abs(y) <= (16777216 if tb == "S" else MAXL) and not (op == "mod" and y == 0)]
+                if tier == "quick":
+                    ps = rng.sample(ps, min(len(ps), 6))
+                for x, y in ps:
+                    for tt in ("I", "L", "D"):
+                        b = B()
+                        e = bin_(op, var("A", ta), var("B", tb))
+                        main = [b.onerror("next"), b.let(var("A", ta), num(x)), b.let(var("B", tb), num(y)),
+                                b.let(var("T", tt), e), b.print(var("T", tt)),
+                                b.let(var("U", "I"), bin_("*", par(bin_(op, var("A", ta), lit("I", 255))), lit("I", 200))), b.print(var("U", "I")),
+                                b.let(var("W", tt), bin_(op, num(y), num(x))), b.print(var("W", tt))]
+                        out.append({"fam": "logic:%s/%s%s>%s" % (op, ta, tb, tt), "prog": prog(main)})
+    for ta in NUMT:
+        for x in vals:
+            if not fits(ta, x) or abs(x) > (16777216 if ta == "S" else MAXL):
+                continue
+            for tt in ("I", "L"):
+                b = B()
+                main = [b.onerror("next"), b.let(var("A", ta), num(x)), b.let(var("T", tt), un("not", var("A", ta))), b.print(var("T", tt))]
+                out.append({"fam": "logic:not/%s>%s" % (ta, tt), "prog": prog(main)})
+    return out
+
+
+FAMILIES.append(fam_logic)
+
+
+def fam_huge_literals(tier, rng):
+    """literals beyond the range of a SINGLE (39 / 40 digits, with and without a fraction, with and without #), beyond every
+    whole-number type, and beyond a DOUBLE (310 digits), through every route into a variable of every type: whatever becomes
+    of them - an Overflow, a rejection - no variable ends up with a value that is not a finite number of its type"""
+    out = []
+    texts = ["4" + "0" * 38, "4" + "0" * 38 + ".0", "4" + "0" * 38 + ".5", "4" + "0" * 38 + "#", "4" + "0" * 38 + ".5#", "1" + "0" * 39 + ".0",
+             "7" + "0" * 39, "9" * 310, "9" * 310 + ".5", "9" * 310 + ".5#", "3" + "0" * 38, "3" + "0" * 38 + ".0"]
+    for i, tx in enumerate(texts):
+        for neg in (False, True):
+            for tt in ("S", "D", "I", "L"):
+                for route in ROUTES:
+                    if tier == "quick" and tt in ("I", "L") and route not in ("assign", "byval", "element"):
+                        continue
+
+                    def src_fn(b, pre, tx=tx, neg=neg):
+                        e = {"k": "big", "text": tx, "t": "D"}
+                        return un("neg", e) if neg else e
+                    p = route_prog(route, tt, src_fn)
+                    if p is not None:
+                        p["main"] = [B().onerror("next")] + p["main"] if False else p["main"]
+                        out.append({"fam": "huge-literal:%s/%d%s>%s" % (route, i, "-" if neg else "", tt), "prog": p})
+                b = B()
+                out.append({"fam": "huge-literal:const/%d%s>%s" % (i, "-" if neg else "", tt),
+                            "prog": prog([b.const("HUGE", "D", {"k": "big", "text": tx, "t": "D"}), b.let(var("T", tt), lit("I", 1)),
+                                          b.let(var("T", tt), un("neg", cref("HUGE")) if neg else cref("HUGE")), b.print(lit("$", "ok"))])})
+    return out
+
+
+FAMILIES.append(fam_huge_literals)
+
+
 def cases(tier, seed):
     rng = random.Random(seed)
     out = []
